@@ -492,6 +492,10 @@ func (s *Scheme) Sign(c context.Context, msgHash []byte, topic string) ([]byte, 
 		signingProtocol, err := s.prepareSigning(membership, partyIDs, topicHash, UIntsToUniversalIDs(signers))
 		if err != nil {
 			s.Logger.Errorf("Failed initializing signing instance: %v", err)
+			resultChan <- struct {
+				sig []byte
+				err error
+			}{err: err}
 			return
 		}
 
